@@ -14,6 +14,8 @@
 //	                                        -> switch c0, c1 := vsched.R(a), vsched.S(b, v); vsched.Select(hasDefault, c0, c1) { case 0: … }
 //	for [v :=] range ch                     -> for { v, ok := vsched.Recv2(ch); if !ok { break }; … }
 //	for [k[, v] :=] range m (m a map)       -> for _, k := range vsched.MapKeys(m) { v, ok := m[k]; if !ok { continue }; … }
+//	x.Err() with x a context.Context        -> vsched.CtxErr(x) (scheduling point while the context is not yet cancelled)
+//	import "context"                        -> vcontext: cancel functions are scheduling points
 //	calls named in RenameCalls (seams)      -> renamed to a glue function of the same signature
 //
 // Rejected loudly: import "sync/atomic"; len/cap of a channel; channel-typed arguments passed to a
@@ -502,6 +504,13 @@ func (r *rw) call(c *ast.CallExpr) string {
 	// conversion?
 	if tv, ok := r.info.Types[c.Fun]; ok && tv.IsType() {
 		return r.generic(c)
+	}
+	// ctx.Err() on a context.Context: the answer depends on a concurrent cancel
+	if sel, ok := unparen(c.Fun).(*ast.SelectorExpr); ok && sel.Sel.Name == "Err" && len(c.Args) == 0 {
+		if t := r.info.TypeOf(sel.X); t != nil && types.TypeString(t, nil) == "context.Context" {
+			r.count("ctx.Err")
+			return fmt.Sprintf("%s.CtxErr(%s)", vs, r.text(sel.X))
+		}
 	}
 	// seam renames
 	key := ""
